@@ -36,6 +36,27 @@ func VH_C17_Forward() {
 		ids: []string{verifrt.Str("arg.ids0"), verifrt.Str("arg.ids1")},
 		mp:  map[string]int{"x": verifrt.Int("arg.mp.x")},
 	}
+	// boundary shapes of the collection arguments: nil, empty, one, two
+	switch verifrt.IntRange("arg.idsShape", 0, 3) {
+	case 0:
+		x.ids = nil
+	case 1:
+		x.ids = []string{}
+	case 2:
+		x.ids = x.ids[:1]
+	}
+	switch verifrt.IntRange("arg.jpsShape", 0, 2) {
+	case 0:
+		x.jps = nil
+	case 1:
+		x.jps = []JoinPlayer{}
+	}
+	switch verifrt.IntRange("arg.mpShape", 0, 2) {
+	case 0:
+		x.mp = nil
+	case 1:
+		x.mp = map[string]int{}
+	}
 	r := vhMgrCall(m, op, tid, x)
 	name := vhMgrOps[op]
 	noResult := name == "UpdateBlind" || name == "SetUpTableGame"
@@ -63,8 +84,11 @@ func VH_C17_Forward() {
 			case "UpdateBlind":
 				verifrt.Assert(c.i == x.i && c.a == x.a && c.b == x.b && c.c == x.c && c.d == x.d, "arguments forwarded unchanged")
 			case "SetUpTableGame":
-				x.mp["marker"] = 7
-				verifrt.Assert(c.i == x.i && c.mp["marker"] == 7 && len(c.mp) == len(x.mp), "arguments forwarded unchanged")
+				if x.mp != nil {
+					x.mp["marker"] = 7
+					verifrt.Assert(c.mp["marker"] == 7, "arguments forwarded unchanged (same map)")
+				}
+				verifrt.Assert(c.i == x.i && (c.mp == nil) == (x.mp == nil) && len(c.mp) == len(x.mp), "arguments forwarded unchanged")
 			case "UpdateTablePlayers":
 				verifrt.Assert(vhSameJPs(c.jps, x.jps) && vhSameIDs(c.ids, x.ids), "arguments forwarded unchanged")
 				verifrt.Assert(r.mp != nil && r.mp["stub"] == k, "engine result passed through")
